@@ -126,6 +126,16 @@ def run(ctx):
             vals = drd.values(dels[0], call.args[0].id)
             base = bool(vals) and all(isinstance(v, ast.Call) and U(v.func) == 'self._get_object_with_access_controls' for v in vals)
         ctx.check(base, 'C07.R3', 'KmipEngine._process_destroy|deletes-base-row', m.site(call, d), 'the base-table row is deleted', 'the delete does not target the base table row (the identifier would stay resolvable)')
+        # query form: the row is selected by its identifier and nothing else - any further criterion (owner, state, type ...) can make the bulk
+        # delete match no row, and the handler answers Success all the same (nobody looks at the row count)
+        flt = [c for c in ast.walk(call) if isinstance(c, ast.Call) and isinstance(c.func, ast.Attribute) and c.func.attr in ('filter', 'filter_by', 'where')]
+        if q:
+            crit = [a for f_ in flt for a in list(f_.args) + [k.value for k in f_.keywords]]
+            only_uid = len(crit) == 1 and ((isinstance(crit[0], ast.Compare) and len(crit[0].ops) == 1 and isinstance(crit[0].ops[0], ast.Eq)
+                                            and U(crit[0].left).endswith('.unique_identifier')) or
+                                           any(k.arg == 'unique_identifier' for f_ in flt for k in f_.keywords))
+            ctx.check(only_uid, 'C07.R3', 'KmipEngine._process_destroy|delete-criteria', m.site(call, d), 'the delete selects the row by its unique identifier alone',
+                      'the bulk delete of Destroy is filtered by %s: with more than the identifier as criterion it can match no row (an object the requester may destroy under its policy but does not own, ...), the row stays, and Destroy still answers Success - the identifier is not dead' % [U(c_)[:60] for c_ in crit])
     # ---------------- R4
     n_reads = 0
     for h in m.handlers:
